@@ -94,7 +94,18 @@ def rule_normalised(ctx):
             ok = rebinding is not None and first_use is not None and first_use[0] == rebinding
             ctx.check(ok, fq, f"{p} = sorted(set({p})) before any other use", f"{p} is used before it is normalised (or never normalised): the first offender reported, or the order of created nodes, depends on the caller's order", "normalised first", where=ctx.where_of(fi))
     gm = ctx.prog.func("workflow.Workflow._raise_if_glob_match")
-    ctx.check("for path in sorted(product_paths)" in ast.unparse(gm.node), gm.fq, "first offender over sorted product paths", "unsorted", "sorted")
+    # the loop that picks the offending product iterates a sorted sequence: sorted(...) inline, or a name whose
+    # reaching assignment is sorted(...)
+    sorted_names = {a.targets[0].id for a in ast.walk(gm.node) if isinstance(a, ast.Assign) and len(a.targets) == 1 and isinstance(a.targets[0], ast.Name)
+                    and isinstance(a.value, ast.Call) and isinstance(a.value.func, ast.Name) and a.value.func.id == "sorted"}
+    unsorted_names = {a.targets[0].id for a in ast.walk(gm.node) if isinstance(a, ast.Assign) and len(a.targets) == 1 and isinstance(a.targets[0], ast.Name)
+                      and not (isinstance(a.value, ast.Call) and isinstance(a.value.func, ast.Name) and a.value.func.id == "sorted")}
+    loops = [l for l in ast.walk(gm.node) if isinstance(l, ast.For) and isinstance(l.target, ast.Name) and l.target.id == "path"]
+    if not loops:
+        raise AnalysisError("_raise_if_glob_match: loop over product paths not found")
+    for l in loops:
+        ok = (isinstance(l.iter, ast.Call) and isinstance(l.iter.func, ast.Name) and l.iter.func.id == "sorted") or (isinstance(l.iter, ast.Name) and l.iter.id in sorted_names - unsorted_names)
+        ctx.check(ok, gm.fq, "first offender over sorted product paths", f"the offending product is picked from `{ast.unparse(l.iter)}` in caller order: the error text depends on the order of the declaration's arguments", "sorted", where=ctx.where_of(gm, l))
     ov = ctx.prog.func("workflow._raise_if_out_and_vol_overlap")
     ctx.check("first_collision = min(overlap)" in ast.unparse(ov.node), ov.fq, "first collision = min", "order dependent", "min")
     rt = ctx.prog.func("workflow.Workflow.reconcile_targets")
